@@ -105,4 +105,12 @@ def kerPow2Check (mat : Mat) (e : Nat) (v : List Int) : Bool :=
   mat.all (fun row => row.length == v.length) && v.any (fun x => x % 2 == 1) &&
   mat.all (fun row => dotInt row v % 2 ^ e == 0)
 
+/-- certificate checker for matrix identities modulo N: A·B ≡ C entrywise (A: r×k rows, B given by its k rows, C: r×c) -/
+def colOf (B : Mat) (j : Nat) : List Int := B.map fun row => row.getD j 0
+
+def matMulCheck (A B C : Mat) (cols : Nat) (N : Int) : Bool :=
+  A.length == C.length &&
+  (List.range A.length).all fun i =>
+    (List.range cols).all fun j => (dotInt (A.getD i []) (colOf B j) - get C i j) % N == 0
+
 end SqiModel.Kernels
